@@ -195,6 +195,128 @@ theorem step_refines (hI : Lawful I) (ts : List (Tree T)) (op : Op E M V) (hwf :
       refine ⟨by simp [map_eraseIdx], ?_⟩
       intro r h; simp only [Option.some.injEq] at h; subst h; exact hwf.erase i
 
+  | moveAt i k j pos p =>
+    simp only [stepM, stepS, List.getElem?_map]
+    cases hti : ts[i]? with
+    | none => simp
+    | some t =>
+      cases htj : ts[j]? with
+      | none => simp
+      | some u0 =>
+        have ht := hwf.get hti
+        obtain ⟨s1, s2, s3⟩ := removeAt_spec I hI t k ht
+        have hwf1 : AllWF I (ts.set i (removeAt I t k).2) := hwf.set i s3
+        simp only [Option.map_some]
+        cases hr : (removeAt I t k).1 with
+        | error e =>
+          have hk : (seq I t)[k]? = none := by
+            cases hk : (seq I t)[k]? with
+            | none => rfl
+            | some x => rw [hk, hr] at s1; simp [Except.map] at s1
+          rw [hk] at s2
+          rw [hk, hr] at s1
+          have he : e = Panic.unwrap := by simpa [Except.map] using s1
+          subst he
+          refine ⟨by simp [hk, map_set_same (seq I) ts i t _ hti s2], ?_⟩
+          intro r h; simp only [Option.some.injEq] at h; subst h; exact hwf1
+        | ok it =>
+          obtain ⟨x, hk⟩ : ∃ x, (seq I t)[k]? = some x := by
+            cases hk : (seq I t)[k]? with
+            | none => rw [hk, hr] at s1; simp [Except.map] at s1
+            | some x => exact ⟨x, rfl⟩
+          rw [hk] at s2
+          rw [hk, hr] at s1
+          have hx : I.own it = x := by simpa [Except.map] using s1
+          have hsing := (removeAt_item I hI t k ht it hr).1
+          have hmap1 : (ts.map (seq I)).set i ((seq I t).eraseIdx k) = (ts.set i (removeAt I t k).2).map (seq I) := by
+            rw [List.map_set, s2]
+          obtain ⟨u, huj⟩ : ∃ u, (ts.set i (removeAt I t k).2)[j]? = some u := by
+            rw [List.getElem?_set]
+            split
+            · split
+              · exact ⟨_, rfl⟩
+              · rename_i h1 h2
+                have := (List.getElem?_eq_some_iff.1 hti).1
+                omega
+            · exact ⟨u0, htj⟩
+          have hu := hwf1.get huj
+          obtain ⟨q1, q2⟩ := insertAt_item_spec I hI u pos it p hu hsing
+          simp only [hk, hmap1, List.getElem?_map, huj, Option.map_some]
+          refine ⟨?_, ?_⟩
+          · simp [List.map_set, q1, size_eq I _ q2, hx]
+          · intro r h; simp only [Option.some.injEq] at h; subst h
+            exact hwf1.set j q2
+  | takeAt i k p =>
+    simp only [stepM, stepS, List.getElem?_map]
+    cases hti : ts[i]? with
+    | none => simp
+    | some t =>
+      have ht := hwf.get hti
+      obtain ⟨s1, s2, s3⟩ := removeAt_spec I hI t k ht
+      have hwf1 : AllWF I (ts.set i (removeAt I t k).2) := hwf.set i s3
+      simp only [Option.map_some]
+      cases hr : (removeAt I t k).1 with
+      | error e =>
+        have hk : (seq I t)[k]? = none := by
+          cases hk : (seq I t)[k]? with
+          | none => rfl
+          | some x => rw [hk, hr] at s1; simp [Except.map] at s1
+        rw [hk] at s2
+        rw [hk, hr] at s1
+        have he : e = Panic.unwrap := by simpa [Except.map] using s1
+        subst he
+        refine ⟨by simp [hk, map_set_same (seq I) ts i t _ hti s2], ?_⟩
+        intro r h; simp only [Option.some.injEq] at h; subst h; exact hwf1
+      | ok it =>
+        obtain ⟨x, hk⟩ : ∃ x, (seq I t)[k]? = some x := by
+          cases hk : (seq I t)[k]? with
+          | none => rw [hk, hr] at s1; simp [Except.map] at s1
+          | some x => exact ⟨x, rfl⟩
+        rw [hk] at s2
+        rw [hk, hr] at s1
+        have hx : I.own it = x := by simpa [Except.map] using s1
+        have hsing := (removeAt_item I hI t k ht it hr).1
+        refine ⟨by simp [hk, List.map_set, s2, single, seq, hx], ?_⟩
+        intro r h; simp only [Option.some.injEq] at h; subst h
+        exact hwf1.push ((WFt_single_iff I hI it p).2 hsing)
+  | dup i w p =>
+    simp only [stepM, stepS, List.getElem?_map]
+    cases hti : ts[i]? with
+    | none => simp
+    | some t =>
+      have ht := hwf.get hti
+      simp only [Option.map_some, size_eq I t ht]
+      by_cases hc : (seq I t).length ≤ 1
+      · obtain ⟨c1, c2, c3, c4, c5⟩ := pick_spec I hI w t ht hc p
+        simp only [if_pos hc]
+        refine ⟨by simp [c1, c4, map_set_same (seq I) ts i t _ hti c2], ?_⟩
+        intro r h; simp only [Option.some.injEq] at h; subst h
+        exact (hwf.set i c3).push c5
+      · simp only [if_neg hc]
+        refine ⟨by simp [seq], ?_⟩
+        intro r h; simp only [Option.some.injEq] at h; subst h
+        exact hwf.push trivial
+  | collect2 i j =>
+    simp only [stepM, stepS, List.getElem?_map]
+    by_cases hij : i = j
+    · simp [hij]
+    · simp only [hij, if_false]
+      cases hti : ts[i]? with
+      | none => simp
+      | some a =>
+        cases htj : ts[j]? with
+        | none => simp
+        | some b =>
+          obtain ⟨a1, a2, a3⟩ := collect_spec' I hI a (hwf.get hti)
+          obtain ⟨b1, b2, b3⟩ := collect_spec' I hI b (hwf.get htj)
+          have htj' : (ts.set i (collect I a).2)[j]? = some b := by
+            rw [List.getElem?_set, if_neg hij]; exact htj
+          refine ⟨?_, ?_⟩
+          · simp only [Option.map_some, List.map_append, a1, b1]
+            rw [map_set_same (seq I) _ j b _ htj' b2, map_set_same (seq I) ts i a _ hti a2]
+          · intro r h; simp only [Option.some.injEq] at h; subst h
+            exact (hwf.set i a3).set j b3
+
 /-- Whole histories: the spec run on the represented sequences is the image of the model run. -/
 theorem run_refines (hI : Lawful I) (ops : List (Op E M V)) (ts : List (Tree T)) (hwf : AllWF I ts)
     (hd : runInDomB (G := G) I (ts.map (seq I)) ops = true) :
